@@ -42,7 +42,7 @@ def prepare():
 
 
 def draw_cfg(st):
-    world = ["seq", "threads"][st.weighted([90, 10], "world")]
+    world = ["seq", "threads"][st.weighted([85, 15], "world")]
     cfg = {
         "world": world,
         # with failing destinations a report about the remote action's end message is logged in whatever
@@ -72,6 +72,8 @@ def draw_cfg(st):
         cfg["spawn_kinds"] = ["thread", "remote", "preserve"]
         cfg["w_ops"] = [6, 6, 2, 2, 2, 1, 1]
         cfg["max_ops"] = min(cfg["max_ops"], 20)
+        # global fields added while other threads are logging
+        cfg["w_destop"] = [0, 2, 5][st.choose(3, "w_globals")]
     elif st.choose(4, "seq-remote") == 3:
         cfg["spawn_kinds"] = ["remote", "preserve"]
         cfg["w_ops"] = [6, 6, 2, 2, 2, 0, 1]
@@ -105,8 +107,20 @@ def draw_cfg(st):
     return cfg
 
 
+def op_globals(interp, op, env):
+    """add_global_fields between (and, in the THREADS world, during) other threads' logging calls; a new
+    key every time, so the shared mapping really changes."""
+    rc = interp.rc
+    rc.n_globals = getattr(rc, "n_globals", 0) + 1
+    fields = dict(op.get("globals") or {})
+    fields["g_new_%d" % rc.n_globals] = rc.n_globals
+    interp.api(("globals", rc.n_globals), rc.eliot.add_global_fields, **fields)
+    rc.probe("global_fields_added")
+
+
 def setup(rc, interp):
     e = rc.eliot
+    rc.custom_ops["destop"] = op_globals
     rc.tap = Tap(rc)
     before, after = [], []
     rc.faulty = []
